@@ -97,6 +97,13 @@ def binSum? (s : Nat) (dims : List Nat) (v : List K) : Option (List K) :=
 def binTensor (s : Nat) (dims : List Nat) (ncomp : Nat) (v : List K) : List K :=
   (chunks (fineSize s dims) ncomp v).flatMap (binND s dims)
 
+/-- tensor fields, literally as the code does it: *one* reshape of the whole array to
+`tensor_shape + (n_1, s_1, n_2, s_2, …)` and one reduction over the `s` axes — the tensor axes are leading
+axes of the array that are not binned (factor 1).  `Lemmas/Binning.lean: binTensorL_eq` proves that this is
+component-wise binning. -/
+def binTensorL (ss dims tshape : List Nat) (v : List K) : List K :=
+  binNDs (tshape.map (fun _ => 1) ++ ss) (tshape ++ dims) v
+
 def binTensor? (s : Nat) (dims : List Nat) (ncomp : Nat) (v : List K) : Option (List K) :=
   if v.length = ncomp * fineSize s dims then some (binTensor s dims ncomp v) else none
 
